@@ -562,9 +562,56 @@ func c07drainedMarks(c *Ctx, sr *schedRoles) {
 	}
 }
 
+// forwardsTo: fn only hands on the answer of another product function (`return isZero(dsc.actual)`);
+// returns that function, following chains.
+func (p *Prog) forwardsTo(fn *ssa.Function) *ssa.Function {
+	for depth := 0; depth < 3 && fn != nil; depth++ {
+		var body *ssa.BasicBlock
+		for _, b := range fn.Blocks {
+			if b == fn.Recover {
+				continue
+			}
+			if body != nil {
+				return fn
+			}
+			body = b
+		}
+		if body == nil {
+			return fn
+		}
+		ret, ok := body.Instrs[len(body.Instrs)-1].(*ssa.Return)
+		if !ok || len(ret.Results) != 1 {
+			return fn
+		}
+		call, ok := ret.Results[0].(*ssa.Call)
+		if !ok {
+			return fn
+		}
+		g := p.Callee(call)
+		if g == nil || !p.IsProduct(g) || g == fn {
+			return fn
+		}
+		// nothing but loads and the call
+		for _, in := range body.Instrs[:len(body.Instrs)-1] {
+			switch in.(type) {
+			case *ssa.FieldAddr, *ssa.UnOp, *ssa.Field, *ssa.DebugRef, *ssa.Alloc, *ssa.Store:
+			case *ssa.Call:
+				if in != ssa.Instruction(call) {
+					return fn
+				}
+			default:
+				return fn
+			}
+		}
+		fn = g
+	}
+	return fn
+}
+
 func c07forall(c *Ctx, sr *schedRoles, fn *ssa.Function, what string) {
 	r, p := c.R, sr.p
 	key := p.FnKey(fn)
+	fn = p.forwardsTo(fn) // the predicate may be a pure function the method only forwards to
 	var problems []string
 	overActual := func(v ssa.Value) bool {
 		if p.isFieldLoad(v, "actual") {
